@@ -313,10 +313,33 @@ def gen_graft(rng):
     return {'ops': ops}
 
 
+def gen_twins(rng):
+    """two different nested graphs that compare equal (both empty, or one the copy of the other) stand in the same graph:
+    nodes are told apart by identity, the questions about one are not answered with the other"""
+    ops = [['new', 0], ['new', 1]]
+    content = rng.choice([[], [], [[10, 11]], [[10, 11], [11, 12]]])
+    for a, b in content:
+        ops.append(['add_dep', 1, a, b])
+    ops.append(['copy', 1] if content or rng.random() < 0.5 else ['new', 2])      # variable 2: the twin
+    first, twin = (NB + 1, NB + 2) if rng.random() < 0.5 else (NB + 2, NB + 1)
+    ops += [['add_dep', 0, 0, 1], ['add_dep', 0, 1, first], ['add_node', 0, twin]]
+    if rng.random() < 0.5:
+        ops.append(['add_dep', 0, twin, 2])
+    for x, y in [(0, first), (0, twin), (1, twin), (1, first), (twin, first), (first, twin)]:
+        ops.append(['depends', 0, x, y, True])
+        ops.append(['depends', 0, x, y, False])
+    for x in (first, twin, 0, 1):
+        ops += [['deps', 0, x], ['dependees', 0, x], ['deps_rec', 0, x], ['contains', 0, x]]
+    ops += [['initial', 0], ['terminal', 0], ['dump', 0]]
+    return {'ops': ops}
+
+
 def gen(rng, tier, run):
     r = rng.random()
     if r < 0.25:
         return gen_dag(rng)
+    if r < 0.29:
+        return gen_twins(rng)
     if r < 0.37:
         return gen_graft(rng)
     spec = Spec()
